@@ -125,7 +125,12 @@ impl ReverseProxyListener {
         debug!("{}: recv from {:?} length: {}", self.name, source, size);
 
         if let Some(tx) = self.sessions.get(&source).await {
-            tx.send(buf).await.context("send")?;
+            // one loop receives for every client of the listener: a session that does not take its datagrams
+            // (its upstream is not connected yet, or does not read) loses them, it does not stop the loop -
+            // waiting here for room kept all other clients unserved, with the session table locked
+            if tx.try_send(buf).is_err() {
+                debug!("{}: session of {} takes no datagrams, dropping one", self.name, source);
+            }
         } else {
             let (tx, rx) = channel(100);
             let io = setup_udp_session(self.target.clone(), self.bind, source, rx, false)
